@@ -54,7 +54,7 @@ def main():
         ],
         "checks": checks,
         "not_applicable": na,
-        "notes": "All checks are static analysis of /repo's current working tree (facts re-extracted whenever any .rs/.toml/.lock/.mol file changes). known_findings.json lists recorded defects (none open) and the three defects repaired by fix: commits in /repo.",
+        "notes": "All checks are static analysis of /repo's current working tree (facts re-extracted whenever any .rs/.toml/.lock/.mol file changes). known_findings.json lists the recorded open findings (F4: seven ChainStore accessors without a freezer fallback, printed as KNOWN-FINDING lines by check C10) and the five defects repaired by fix: commits in /repo (F1, F2, F3, F5, F6; DESIGN.md section 6).",
     }
     json.dump(m, open(os.path.join(V, "MANIFEST.json"), "w"), indent=1)
     print("checks:", [c["property_id"] for c in checks], "na:", [n["property_id"] for n in na])
